@@ -231,7 +231,7 @@ class BdRetransmitContract(Contract):
     fn_summaries = {"BlockDownloadStream._retransmit": FnSummary(_rt_pre, _rt_apply, inline_depth=1, proved_by="BdRetransmitContract")}
     xcheck = False
     max_paths = 8000
-    budget_s = 900
+    budget_s = 1500
     exits = ("return",)
 
     def setup(self, w, case):
@@ -276,7 +276,7 @@ class BlockDownloadSafetyTheorem(Contract):
     fn_summaries = {"BlockDownloadStream._retransmit": FnSummary(_rt_pre, _rt_apply, inline_depth=0, proved_by="BdRetransmitContract")}
     xcheck_n = 4
     max_paths = 8000
-    budget_s = 900
+    budget_s = 1500
     exits = ("return",)
     __doc__ = __doc__
 
